@@ -1282,6 +1282,7 @@ def _array_rule(ctx):
         ("fixed 3 of 2 bytes", cls_w(3, elem), b"\x01\x02", None, ("raise", "BufferEmptyError"), None),
         ("declared 8, per-call length 2", cls_w(8, elem), b"\x01\x02\x03", 2, ("return", [1, 2]), 2),
         ("USINT-prefixed", cls_w(usint, elem), b"\x02\x05\x06\x07", None, ("return", [5, 6]), 3),
+        ("USINT-prefixed, count 0 with more data behind it", cls_w(usint, elem), b"\x00\x05\x06", None, ("return", []), 1),
         ("unbounded", cls_w(None, elem), b"\x07\x08\x09", None, ("return", [7, 8, 9]), 3),
         ("unbounded, empty buffer", cls_w(None, elem), b"", None, ("return", []), 0),
         ("bit strings, fixed 2", cls_w(2, bits), pack(b16) + b"\xff", None, ("return", b16), 2),
